@@ -378,7 +378,12 @@ class AsyncInotifyWrapper:
             # Mark watches that inotify reports as removed
             path = Path(event.path)
             if event.mask & Mask.IGNORED:
-                self.watches[path] = None
+                # The kernel let go of this watch.
+                # The notice for a watch that was removed here can arrive after a new watch was
+                # installed for the same path (directory moved away and created again
+                # before the events were read): only the watch that is meant is forgotten.
+                if self.watches.get(path) is event.watch:
+                    self.watches[path] = None
                 continue
             # Determine the type of change
             change = (
